@@ -12,7 +12,7 @@ var capsuleTypes = []cty.Type{
 	cty.Capsule("capB", reflect.TypeOf(0)), // same name shape, different identity
 }
 
-var attrNames = []string{"a", "b", "c", "d", "é", "zz"}
+var attrNames = []string{"a", "b", "c", "d", "é", "zz", "m", "n", "Ab"}
 
 type TyOpts struct {
 	Dyn      bool // allow DynamicPseudoType
@@ -54,14 +54,14 @@ func genTy(r *rand.Rand, depth int, o TyOpts) cty.Type {
 	case 7:
 		return cty.Map(genTy(r, depth-1, o))
 	case 8:
-		w := r.Intn(o.MaxWidth + 1)
+		w := genWidth(r, o)
 		es := make([]cty.Type, w)
 		for i := range es {
 			es[i] = genTy(r, depth-1, o)
 		}
 		return cty.Tuple(es)
 	default:
-		w := r.Intn(o.MaxWidth + 1)
+		w := genWidth(r, o)
 		atys := map[string]cty.Type{}
 		var opts []string
 		for i := 0; i < w; i++ {
@@ -83,6 +83,16 @@ func genTy(r *rand.Rand, depth int, o TyOpts) cty.Type {
 		}
 		return cty.Object(atys)
 	}
+}
+
+// genWidth picks a tuple/object width: usually 0..MaxWidth, one time in ten
+// wider (up to MaxWidth+5) so that code treating late positions differently
+// from early ones is exercised.
+func genWidth(r *rand.Rand, o TyOpts) int {
+	if r.Intn(10) == 0 {
+		return o.MaxWidth + 1 + r.Intn(5)
+	}
+	return r.Intn(o.MaxWidth + 1)
 }
 
 func sortedKeys[V any](m map[string]V) []string {
